@@ -44,3 +44,8 @@ def run(ctx):
                         "masked self reference) filled from 300 (thorough 1500) seeds per item with a counting random source: FillRandom may nest at most 700 call frames (a few dozen on a tree "
                         "that limits depth) and one value may draw at most 4*10^8 random numbers; the largest nesting and number of draws seen are reported.")
     ctx.require("fills of recursive shapes", t.get("fills", 0), 3000)
+    # the fixed schema of rarely reached shapes (mask bit 31, flags in the second mask block, flags-only objects)
+    fpath = os.path.join(ctx.work, "fixed_shapes.tl")
+    open(fpath, "w").write(schemagen.fixed_shapes().text())
+    fp = codec.build_pkg(ctx, "fixed_shapes", [fpath], "tl2all", must=True)
+    codec.run_mode(ctx, fp, "c18", env={"VERIF_VALUES": 300 if ctx.tier == "thorough" else 60}, fill_death_is_violation=True)
